@@ -170,6 +170,16 @@ class WriterTables:
                 ):
                     reads.add((n.args[0].id, n.args[1].value))
             self.handler_reads[name] = reads
+        # helpers whose `entity` parameter is annotated with a class: their reads are persisted fields of that class
+        self.typed_handler_reads: dict[str, set[str]] = {}
+        for name, fn in self.writer.methods.items():
+            for a in fn.node.args.args:
+                if a.arg == "entity" and isinstance(a.annotation, ast.Name) and a.annotation.id not in ("Entity", "Data"):
+                    names = {
+                        n.attr for n in ast.walk(fn.node)
+                        if isinstance(n, ast.Attribute) and isinstance(n.value, ast.Name) and n.value.id == "entity" and isinstance(n.ctx, ast.Load)
+                    }
+                    self.typed_handler_reads.setdefault(a.annotation.id, set()).update(names - {"workspace"})
 
     # ------------------------------------------------------------------------
     def covers(self, route: str | None, field: str, amap_fields: set[str], cls=None) -> bool:
